@@ -28,3 +28,20 @@ func Harness_Smoke_Broker() {
 	vAssert("pubid", pd.Publication == ev.Publication)
 	vCover("smoke-done")
 }
+
+func Harness_Smoke_Router() {
+	r := vNewRouter(&Config{RealmConfigs: []*RealmConfig{{URI: "realm1", AnonymousAuth: true, AllowDisclose: true}}})
+	a := vAttach(r, "realm1", nil, 16)
+	b := vAttach(r, "realm1", nil, 16)
+	vAssert("attached", a != nil && b != nil)
+	a.send(&wamp.Subscribe{Request: 1, Topic: "x.y"})
+	ms := a.drain()
+	vAssert("subscribed", len(ms) == 1)
+	b.send(&wamp.Publish{Request: 2, Topic: "x.y", Arguments: wamp.List{vInt64("arg")}})
+	ev := a.drain()
+	vAssert("event", len(ev) == 1)
+	_, ok := ev[0].(*wamp.Event)
+	vAssert("is-event", ok)
+	r.Close()
+	vCover("router-smoke-done")
+}
